@@ -10,3 +10,7 @@ const verifOn = false
 const verifExactTriSign = false
 
 func verifSimplifyRemoved(int) {}
+
+const verifSkipFixSelfIntersects = false
+
+func verifSkipJoin(e, other *Active, pt Point64, checkCurrX bool) bool { return false }
